@@ -276,6 +276,10 @@ class Executor:
             if m:
                 base = p.env.get(m.group(1), ("sym", f"{self.fn.name}:{m.group(1)}"))
                 p.env[m.group(1)] = ("upd", base, int(m.group(2)), val)
+            elif re.match(r"\(\(\*(_\d+)\)\.(\d+): ", lhs):
+                # store into a field behind a reference: recorded, not read back
+                m = re.match(r"\(\(\*(_\d+)\)\.(\d+): ", lhs)
+                p.stores.append((("field", p.env.get(m.group(1), ("sym", f"{self.fn.name}:{m.group(1)}")), int(m.group(2))), val, len(p.calls), lhs))
             elif re.match(r"\(\(\*_\d+\)\[", lhs):
                 # store into a field of an indexed element behind a reference: recorded, not read back
                 m = re.match(r"\(\(\*(_\d+)\)\[(_\d+)\]\.(\d+): ", lhs)
